@@ -66,7 +66,7 @@ class VOpts:
         in_decl=['bus_desc', 'bus_asc', 'bus_mixed', 'bus_off'], wire_decl=['bus'], out_ref=['whole'], in_ref=['whole', 'whole_off'], out_decl=['bus_desc', 'bus_asc'], port_order=[1, 2, 3],
         stmt_order=['inst_first', 'interleaved', 'inst_reversed'], pin_order=['rev', 'out_first'], out_style=['assign'],
         escape=[True], noise=['line_comment', 'block_comment', 'star_comment', 'attribute', 'star_attribute', 'tabs_newlines', 'crlf'], redeclare=[True],
-        const_style=['bus', 'bus4h', 'bus3d'], const_spelling=['h', 'd', 'B', 'H', 'D'], open_pin=['empty'], assign_order=['rev'], alias_chain=[True, 'rev'], concat_assign=[True, 'vec_rhs', 'vec_lhs'],
+        const_style=['bus', 'bus4h', 'bus3d', 'alias', 'alias_rev'], const_spelling=['h', 'd', 'B', 'H', 'D'], open_pin=['empty'], assign_order=['rev'], alias_chain=[True, 'rev'], concat_assign=[True, 'vec_rhs', 'vec_lhs'],
     )
 
     def __init__(self, **kw):
@@ -170,6 +170,13 @@ def verilog(nl, cmap, dffcell, opts, const_gate_inputs=None):
         decl.append('wire [1:0] kk;')
         assigns.append({'b': "assign kk = 2'b10;", 'B': "assign kk = 2'B10;", 'h': "assign kk = 2'h2;", 'H': "assign kk = 2'H2;", 'd': "assign kk = 2'd2;", 'D': "assign kk = 2'D2;"}[sp])
         sig_name['c0'], sig_name['c1'] = 'kk[0]', 'kk[1]'
+    elif opts.const_style in ('alias', 'alias_rev'):
+        # the constants reach the pins through one more assign; alias_rev puts the aliases textually before the constant assign
+        decl.append('wire [1:0] kk; wire kz, ko;')
+        al = ['assign kz = kk[0];', 'assign ko = kk[1];']
+        ka = "assign kk = 2'b10;"
+        assigns += (al + [ka]) if opts.const_style == 'alias_rev' else ([ka] + al)
+        sig_name['c0'], sig_name['c1'] = 'kz', 'ko'
     elif opts.const_style == 'bus4h':
         decl.append('wire [3:0] kk;')
         assigns.append(f"assign kk = 4'{'H' if sp.isupper() else 'h'}{'A' if sp.isupper() else 'a'};")
